@@ -220,7 +220,12 @@ def rule_f(ctx):
     from . import c07
     c07.rule_b(ctx)
 
+def rule_g(ctx):
+    from . import c09
+    c09.rule_a(ctx)
+
 RULES = [
+    ("C10.g", "a cancelled periodic action stops firing: the stepping loop only sees keys through the cancelled-skipping peek helper", rule_g),
     ("C10.f", "same-key occurrences are chained in pull order in one task", rule_f),
     ("C10.e", "same-key occurrences chained in a SeqFuture are each polled to completion exactly once", rule_e),
     ("C10.a", "pull helper re-inserts next() at time+period under the same origin", rule_a),
